@@ -48,6 +48,7 @@ fn main() {
                 println!("{:?} | {:?} | {:?} | {:?} | {:?}", c.tokens, c.description, c.source, c.value.as_ref().map(|v| v.to_string()), c.unit);
             }
         }
+        "open-probe" => props::c15::open_probe_main(),
         "profiles" => {
             let prop = props::find(args.get(2).map(|s| s.as_str()).unwrap_or("")).unwrap_or_else(|| usage());
             let tier = Tier::parse(args.get(3).map(|s| s.as_str()).unwrap_or("quick"));
